@@ -350,7 +350,7 @@ func (n *node[T]) checkAmbiguous(pattern string, hasNonString bool) (*node[T], b
 		s0 := segs[0]
 
 		if seg.IsAmbiguous(s0) {
-			node, hasNonString, err := c.checkAmbiguous(pattern[s0.AmbiguousLen():], true)
+			node, hasNonString, err := c.checkAmbiguous(pattern[len(s0.Value):], true) // {name:} 的 AmbiguousLen 不包含冒号
 			if err != nil {
 				return nil, false, err
 			}
